@@ -2,6 +2,7 @@
 package main
 
 import (
+	"sync/atomic"
 	"fmt"
 	"go/types"
 	"math/big"
@@ -285,14 +286,63 @@ func normSegs(in []Seg) []Seg {
 	}
 	return out
 }
+// keyShapeMismatch counts key comparisons decided "different keys" only because a constant string stands where the other
+// key has a symbolic string (the byte strings could still be equal). It is a stated limitation of the store model; the
+// count is reported per harness (stat "keys-with-constant-vs-symbolic-string-decided-different")
+// count is written to the evidence file.
+var keyShapeMismatch int64
+
+func hasStrSeg(x []Seg) bool {
+	for _, g := range x {
+		if g.Kind == "str" {
+			return true
+		}
+	}
+	return false
+}
+
+// couldStillMatch: x and y have different shapes; could their byte strings be equal because of a symbolic string segment?
+// (conservative: the leading constant segments must be compatible - one a prefix of the other)
+func couldStillMatch(x, y []Seg) bool {
+	if !hasStrSeg(x) && !hasStrSeg(y) {
+		return false
+	}
+	for i := 0; i < len(x) && i < len(y); i++ {
+		if x[i].Kind == "c" && y[i].Kind == "c" {
+			a, b := string(x[i].B), string(y[i].B)
+			if a == b {
+				continue
+			}
+			if strings.HasPrefix(a, b) {
+				return i+1 < len(y) && y[i+1].Kind == "str"
+			}
+			if strings.HasPrefix(b, a) {
+				return i+1 < len(x) && x[i+1].Kind == "str"
+			}
+			return false
+		}
+		if x[i].Kind == y[i].Kind {
+			continue
+		}
+		return (x[i].Kind == "c" && y[i].Kind == "str") || (x[i].Kind == "str" && y[i].Kind == "c")
+	}
+	return false
+}
+
 func keyEq(a, b BytesV) string {
 	x, y := normSegs(a.Segs), normSegs(b.Segs)
 	if len(x) != len(y) {
+		if couldStillMatch(x, y) {
+			atomic.AddInt64(&keyShapeMismatch, 1)
+		}
 		return "false"
 	}
 	var conj []string
 	for i := range x {
 		if x[i].Kind != y[i].Kind {
+			if couldStillMatch(x, y) {
+				atomic.AddInt64(&keyShapeMismatch, 1)
+			}
 			return "false"
 		}
 		if x[i].Kind == "c" {
